@@ -42,6 +42,15 @@ Deep ==
       \cup {Arr(<<O1("k0", x)>>) : x \in SmallArr} \cup {Arr(<<N1, O1("k0", x), N2>>) : x \in SmallArr}
       \cup {O1("k0", O1("k1", x)) : x \in inner}
 
+(* long paths: an object with two scalar members under 1..6 levels of keys / array elements *)
+RECURSIVE Wrap(_, _)
+Wrap(n, w) == IF w = <<>> THEN n
+              ELSE IF Head(w) = "arr" THEN Arr(<<Wrap(n, Tail(w))>>) ELSE O1(Head(w), Wrap(n, Tail(w)))
+LeafObjs == {O2("k0", x, "k1", y) : x \in {N1, N2, N3}, y \in {N1, N2}} \cup {Obj([j \in {"k0", "k1", "k2"} |-> IF j = "k0" THEN x ELSE N1]) : x \in {N1, N2}}
+WrapShapes == { <<"k0">>, <<"k0", "k1">>, <<"k0", "k1", "k2">>, <<"k0", "arr", "k1">>, <<"k0", "k1", "k2", "k0">>,
+                <<"k0", "k1", "k2", "k0", "k1">>, <<"k0", "arr", "k1", "arr", "k2", "k0">>, <<"arr", "k0", "k1">> }
+DeepObj == {Wrap(n, w) : n \in LeafObjs, w \in WrapShapes}
+
 (* arrays of keyed objects {id, v} with unique ids, plus at most one non-object member *)
 KObj(i, x) == O2("id", i, "v", x)
 KeyedMembers == {KObj(i, x) : i \in {N1, N2, N3}, x \in {N1, N2}}
@@ -60,6 +69,12 @@ PtrVals == {N1, EmptyArr, Arr(<<N1, N2>>), O1("e0", N1)}
 ObjPtr == UNION { {Obj(f) : f \in [D -> PtrVals]} : D \in {S \in SUBSET PtrKeys : Cardinality(S) <= 2} }
 PtrDeep == {O1(key, Arr(t)) : key \in {"e0", "em", "k0"}, t \in TuplesUpTo({N1, N2, O1("e1", N1)}, 3)}
            \cup {Arr(<<O1(key, Arr(t))>>) : key \in {"e1", "k0"}, t \in TuplesUpTo({N1, N2}, 3)}
+
+(* members identified by TWO keys; the same values also occur swapped across the keys *)
+K2Obj(x, y, w) == Obj([j \in {"from", "to", "w"} |-> IF j = "from" THEN x ELSE IF j = "to" THEN y ELSE w])
+K2Members == {K2Obj(x, y, w) : x \in {S0, S1}, y \in {S0, S1}, w \in {N1, N2}}
+K2Unique(t) == \A i, j \in DOMAIN t : i # j => (t[i].v["from"] # t[j].v["from"] \/ t[i].v["to"] # t[j].v["to"])
+Keyed2K == {Arr(t) : t \in {u \in TuplesUpTo(K2Members, 2) : K2Unique(u)}}
 
 (* type-confusable values for the equality oracle (C04) *)
 Confusable ==
@@ -86,6 +101,7 @@ ObjVariants(f) ==
   {Obj(FnWith(f, "kz", N9))}
   \cup {Obj(FnWithout(f, key)) : key \in DOMAIN f}
   \cup {Obj(FnWith(f, key, N9)) : key \in DOMAIN f}
+  \cup {Obj([j \in DOMAIN f |-> IF j = k1 THEN f[k2] ELSE IF j = k2 THEN f[k1] ELSE f[j]]) : k1 \in DOMAIN f, k2 \in DOMAIN f}
 
 RECURSIVE Perturb(_)
 Perturb(n) ==
